@@ -111,6 +111,10 @@ def main(argv=None) -> int:
             p = write_replay(f)
             print(f"VIOLATION property={pid} replay={p}")
         return 1
+    if ctx.deferred:
+        for m in ctx.deferred:
+            print(f"ANALYSIS-ERROR property={pid} {m}")
+        return 2
     if selftest_msgs:
         for m in selftest_msgs:
             print(f"ANALYSIS-ERROR property={pid} {m}")
